@@ -242,6 +242,11 @@ class Shaper:
             env["<partials>"].setdefault(s.targets[0].id, [])
             env["<partials>"][s.targets[0].id] = env["<partials>"][s.targets[0].id] + [s.value]
             return
+        if isinstance(s, ast.Assign) and len(s.targets) == 1 and isinstance(s.targets[0], ast.Name) and isinstance(s.value, ast.Name) and s.value.id not in env and self.p.resolve_func(f.mod, s.value) is not None and self.p.resolve_func(f.mod, s.value).cls is None:
+            # `g = helper` (a module-level function chosen per arm): g stands for the helper(s), like nested defs
+            env["<fnalias>"] = dict(env.get("<fnalias>", {}))
+            env["<fnalias>"][s.targets[0].id] = env["<fnalias>"].get(s.targets[0].id, []) + [s.value]
+            return
         if isinstance(s, (ast.Assign, ast.AnnAssign)):
             if isinstance(s, ast.AnnAssign) and s.value is None:
                 return
@@ -684,6 +689,20 @@ class Shaper:
                 synth = ast.copy_location(ast.Call(func=pc.args[0], args=list(pc.args[1:]) + list(call.args), keywords=list(pc.keywords) + list(call.keywords)), call)
                 ast.fix_missing_locations(synth)
                 self.cg.by_node.setdefault(id(synth), self.cg.by_node.get(id(pc)))
+                ret = self._call(f, synth, env, sub)
+                alts.append(sub)
+            if all(_strip_reader(a_) == _strip_reader(alts[0]) for a_ in alts):
+                out.extend(alts[0])
+            else:
+                out.append(("alts", alts))
+            return ret or "?"
+        if isinstance(fn, ast.Name) and env.get("<fnalias>", {}).get(fn.id):
+            alts = []
+            ret = None
+            for target in env["<fnalias>"][fn.id]:
+                sub = []
+                synth = ast.copy_location(ast.Call(func=ast.copy_location(ast.Name(id=target.id, ctx=ast.Load()), call), args=list(call.args), keywords=list(call.keywords)), call)
+                ast.fix_missing_locations(synth)
                 ret = self._call(f, synth, env, sub)
                 alts.append(sub)
             if all(_strip_reader(a_) == _strip_reader(alts[0]) for a_ in alts):
